@@ -349,6 +349,7 @@ async def coap_history(ctx, history: str, key) -> None:
             st["inflight"] -= 1
 
     async def handler_inner(msg, b):
+        st.setdefault("wire", set()).add(hashlib.sha256(bytes(msg.payload)).digest())
         try:
             a_recv.decrypt(sim_coap.nonce(st["rc"]), bytes(msg.payload), b"")
             st["rc"] += 1
@@ -478,6 +479,7 @@ async def coap_history(ctx, history: str, key) -> None:
                     # processing fails after decryption and after the first entry was dispatched; then the same datagram
                     # again: it consumed its counter value and must not be accepted a second time
                     payload = produce_event(bad=True)
+                    st.setdefault("bad_events", set()).add(payload)
                     try:
                         await resource.render_put(Message(code=Code.PUT, payload=payload))
                     except Exception:  # noqa: BLE001 - the failing entry is the accessory's fault; the replay is judged
@@ -496,6 +498,11 @@ async def coap_history(ctx, history: str, key) -> None:
                 try:
                     await resource.render_put(Message(code=Code.PUT, payload=payload))
                 except Exception as ex:  # noqa: BLE001
+                    if payload in st.get("bad_events", ()):
+                        # the deliberately ill-formed event (action b), delivered when its counter happens to be current: its
+                        # processing fails by construction; only what the AEAD log shows is judged
+                        ctx.count("coap_event_processing_failed_after_decrypt")
+                        continue
                     ctx.violation(f"coap-event-handler-raises-{type(ex).__name__}", f"history {history!r}: {ex!r}", replay)
                     return
         # ---- offline analysis of the AEAD log ----
@@ -507,9 +514,15 @@ async def coap_history(ctx, history: str, key) -> None:
             if ev["op"] == "encrypt":
                 ctx.count("coap_encrypts_logged")
                 sig = (ev["key"], ev["nonce"])
-                if sig in enc_seen:
+                on_wire = ev["ct"] in st.get("wire", ())
+                if sig in enc_seen and on_wire and enc_seen[sig][1]:
+                    # both messages left the controller (a request sealed after the session destroyed itself and never handed
+                    # to the network is a crash of that caller, not a second message under the nonce)
                     findings.append({"kind": "nonce-reuse", "log_index": i, "nonce": ev["nonce"].hex(), "keyname": ev["key"]})
-                enc_seen[sig] = i
+                elif sig in enc_seen:
+                    ctx.count("coap_sealed_but_never_sent")
+                if sig not in enc_seen or on_wire:
+                    enc_seen[sig] = (i, on_wire or (sig in enc_seen and enc_seen[sig][1]))
             elif ev.get("ok"):
                 ctx.count("coap_event_accepts_logged" if ev["key"] == "event" else "coap_accepts_logged")
                 gen = st["genuine"] if ev["key"] == "recv" else st["egenuine"]
